@@ -414,11 +414,11 @@ pub fn transforms(thorough: bool) -> Vec<(Tf, bool)> {
         (Tf::Translate(1e6), true),
     ];
     if thorough {
-        v.push((Tf::Scale(0.0009765625), true)); // 2^-10, exact
-        v.push((Tf::Scale(1048576.0), true)); // 2^20, exact
+        v.push((Tf::Scale(2f32.powi(-10)), true)); // exact
+        v.push((Tf::Scale(2f32.powi(20)), true)); // exact
         v.push((Tf::Translate(-1.5), true));
-        v.push((Tf::Scale(8.470329e-22), false)); // 2^-70
-        v.push((Tf::Scale(1.1805916e21), false)); // 2^70
+        v.push((Tf::Scale(2f32.powi(-70)), false));
+        v.push((Tf::Scale(2f32.powi(70)), false));
     }
     v
 }
